@@ -28,17 +28,24 @@ Trivial(k)          == k \in {"int", "Triv"}
 DefaultCtor(k)      == k # "NDC"
 NothrowDefault(k)   == k \notin {"NDC", "TD"}
 CopyCtor(k)         == k # "MO"
-NothrowCopy(k)      == k \in {"int", "Triv", "NA", "TA", "NDC", "TD", "TS"}
+NothrowCopy(k)      == k \in {"int", "Triv", "NA", "TA", "NDC", "TD", "TS", "MA"}
 (* round 3: kinds on which "nothrow move" and "nothrow swap" differ ([variant.swap]: noexcept iff every alternative is BOTH  *)
 (* nothrow move constructible AND nothrow swappable).  SW: a pre-C++11 style class - copy constructor and copy assignment  *)
 (* that may throw, no move members, and a noexcept ADL swap; TS: everything noexcept except its ADL swap.                  *)
-ExtraKinds          == {"SW", "TS"}
-NothrowMove(k)      == k \notin {"TM", "SW"}             \* move construction and move assignment alike
-NothrowSwap(k)      == k \notin {"TM", "TS"}
+(* round 4: kinds on which the exception specifications of the move CONSTRUCTOR and of the move ASSIGNMENT differ                *)
+(* ([variant.assign]: operator=(variant&&) is noexcept iff every alternative is nothrow move constructible AND nothrow move      *)
+(* assignable; [variant.ctor]: variant(variant&&) looks at the constructors only).  MA: everything noexcept except the move      *)
+(* assignment; MC: copy / move constructors may throw, both assignments are noexcept.  Neither has an ADL swap: std::swap<T> is   *)
+(* noexcept iff T is nothrow move constructible and nothrow move assignable.                                                     *)
+ExtraKinds          == {"SW", "TS", "MA", "MC"}
+NothrowMove(k)      == k \notin {"TM", "SW", "MC"}       \* is_nothrow_move_constructible<T>
+NothrowMoveAssign(k) == k \notin {"TM", "SW", "MA"}      \* is_nothrow_move_assignable<T>
+NothrowSwap(k)      == k \notin {"TM", "TS", "MA", "MC"}  \* is_nothrow_swappable<T>
 
 AltLists == {<<a>> : a \in ClassKinds} \cup {<<a, b>> : a, b \in ClassKinds}
             \cup {<<"int", "NT", "TM">>, <<"Triv", "int", "Triv">>, <<"NA", "MO", "NT">>, <<"TD", "NT", "int">>}
             \cup {<<a>> : a \in ExtraKinds} \cup {<<"int", "SW">>, <<"SW", "NT">>, <<"TS", "int">>, <<"NA", "TS">>, <<"SW", "TS">>, <<"int", "NA", "SW">>}
+            \cup {<<"int", "MA">>, <<"MA", "NT">>, <<"MC", "int">>, <<"NA", "MC">>, <<"MA", "MC">>, <<"int", "NA", "MA">>, <<"SW", "MA">>}
 All(S, P(_)) == \A i \in 1..Len(S) : P(S[i])
 
 (* [variant.ctor] [variant.assign] [variant.swap]: value of each trait of variant<S>.  "dir" says how a *)
@@ -56,7 +63,7 @@ TraitRows(S) ==
       [trait |-> "nothrow_move_constructible",    want |-> All(S, NothrowMove),                  dir |-> "nothrow"],
       [trait |-> "copy_assignable",               want |-> All(S, CopyCtor),                     dir |-> "must"],
       [trait |-> "move_assignable",               want |-> TRUE,                                 dir |-> "must"],
-      [trait |-> "nothrow_move_assignable",       want |-> All(S, NothrowMove),                  dir |-> "nothrow"],
+      [trait |-> "nothrow_move_assignable",       want |-> All(S, NothrowMove) /\ All(S, NothrowMoveAssign), dir |-> "nothrow"],
       [trait |-> "nothrow_swappable",             want |-> All(S, NothrowMove) /\ All(S, NothrowSwap), dir |-> "nothrow"],
       [trait |-> "nothrow_destructible",          want |-> TRUE,                                 dir |-> "must"],
       [trait |-> "trivially_copy_constructible",  want |-> All(S, Trivial),                      dir |-> "trivial"],
@@ -141,8 +148,9 @@ EmitRows == /\ trow.t = "none" \/ PrintT("@R@" \o ToJson(trow))
 (* theorems of the tables themselves *)
 (* a variant is nothrow-movable exactly if no alternative has a throwing move; trivially destructible only over trivial alternatives *)
 TraitLaws == trow.t = "trait" =>
-    /\ (trow.trait = "nothrow_move_constructible" => (trow.want <=> \A i \in 1..Len(trow.S) : trow.S[i] \notin {"TM", "SW"}))
-    /\ (trow.trait = "nothrow_swappable" => (trow.want <=> \A i \in 1..Len(trow.S) : trow.S[i] \notin {"TM", "SW", "TS"}))
+    /\ (trow.trait = "nothrow_move_constructible" => (trow.want <=> \A i \in 1..Len(trow.S) : trow.S[i] \notin {"TM", "SW", "MC"}))
+    /\ (trow.trait = "nothrow_move_assignable" => (trow.want <=> \A i \in 1..Len(trow.S) : trow.S[i] \notin {"TM", "SW", "MC", "MA"}))
+    /\ (trow.trait = "nothrow_swappable" => (trow.want <=> \A i \in 1..Len(trow.S) : trow.S[i] \notin {"TM", "SW", "TS", "MA", "MC"}))
     /\ ((trow.trait = "trivially_destructible" /\ trow.want) => \A i \in 1..Len(trow.S) : trow.S[i] \in {"int", "Triv"})
 (* an argument of exactly an alternative's type selects that alternative, under both rules *)
 ConvLaws == crow.t = "conv" =>
